@@ -50,6 +50,8 @@ MCProgs(st) ==
     << Op("NR"), Rd(2), Rd(125), Op("RA"), Op("RM"), Op("RM") >>,
     << Op("WCL"), Op("RM"), Op("RM"), Op("RM") >>,
     << Op("NR"), Rd(1), Op("WCL"), Op("RA"), Op("RM"), Op("WCL"), Op("RM") >>,
+    << Op("NR"), Rd(1), Op("NR"), Rdo(4096), Op("RA"), Rdo(1), Op("RM"), Rdo(7), Op("RM") >>,
+    << Op("NR"), Op("RM"), Rdo(4096), Op("RM"), Rdo(4096) >>,
     << Op("RJ"), Op("RJ"), Op("RJ") >>,
     << Op("RJ"), Op("NR"), Rd(1), Op("RJ"), Op("RM") >>,
     << Op("RM"), Op("RJ"), Ja(0) >>,
